@@ -184,17 +184,16 @@ Definition close_r (r tol num D : Q) : bool := le_r (r - tol) num D && ge_r (r +
 Definition qabs_sum (l : list Qc) : Qc := qsum (map (fun x : Qc => if Qle_bool 0%Q x then x else - x) l).
 
 (* rounding-error budget of the float pipeline (conversion, n-term sums, the final formula), first order:
-   4 (n + 4) u (kx + ky),  kx = sum x^2 / ssd x  >= 1  the conditioning of the variance subtraction *)
-Definition cpa_tol (p : prec) (n : nat) (l : list obs) (dx dy : Qc) : Q :=
-  let kx := qsum (map sq (map fst l)) / dx in
-  let ky := qsum (map sq (map snd l)) / dy in
-  Qred ((4 * inject_Z (Z.of_nat n + 4)) * uround p * (kx + ky)%Qc).
+   4 (f + 4) u (kx + ky),  kx = sum x^2 / ssd x  >= 1  the conditioning of the variance subtraction;
+   f = number of traces (error of the n-term float sums), or 4 when the sums are known to be exact *)
+Definition corr_tol (p : prec) (f : Z) (sxx syy dx dy : Qc) : Q :=
+  Qred ((4 * inject_Z (f + 4)) * uround p * (sxx / dx + syy / dy)%Qc).
 
-Definition cpa_entry_ok (p : prec) (n : nat) (l : list obs) (v : fval) : bool :=
-  match pearson_fast l with
+Definition corr_ok (p : prec) (f : Z) (spec : option triple) (sxx syy : Qc) (v : fval) : bool :=
+  match spec with
   | None => is_nan v                           (* undefined: NaN, never infinite, never finite *)
   | Some (num, dx, dy) =>
-      let tol := cpa_tol p n l dx dy in
+      let tol := corr_tol p f sxx syy dx dy in
       if Qle_bool (1 # 8) tol then negb (is_inf v)    (* float denominators cannot be told from zero: vacuous *)
       else match v with
            | Fin m e => close_r (q_of_fin m e) tol num (dx * dy)%Qc
@@ -202,15 +201,27 @@ Definition cpa_entry_ok (p : prec) (n : nat) (l : list obs) (v : fval) : bool :=
            end
   end.
 
-Definition dpa_tol (p : prec) (n : nat) (l : list dobs) : Q :=
-  let n1 := qlen (ones l) in let n0 := qlen (zeros l) in
-  Qred ((4 * inject_Z (Z.of_nat n + 4)) * uround p * (qabs_sum (map fst l) * (1 / n1 + 1 / n0))%Qc).
+(* the budget of one entry given by its full list of rows (kept under this name for Model/Batching.v) *)
+Definition cpa_tol (p : prec) (n : nat) (l : list obs) (dx dy : Qc) : Q :=
+  corr_tol p (Z.of_nat n) (qsum (map sq (map fst l))) (qsum (map sq (map snd l))) dx dy.
 
-Definition dpa_entry_ok (p : prec) (n : nat) (l : list dobs) (v : fval) : bool :=
-  match dpa_spec l with
+Definition cpa_entry_ok (p : prec) (n : nat) (l : list obs) (v : fval) : bool :=
+  corr_ok p (Z.of_nat n) (pearson_fast l) (qsum (map sq (map fst l))) (qsum (map sq (map snd l))) v.
+
+(* 4 (f + 4) u sum|x| (1/n1 + 1/n0) *)
+Definition diff_tol (p : prec) (f : Z) (sabs n1 n0 : Qc) : Q :=
+  Qred ((4 * inject_Z (f + 4)) * uround p * (sabs * (1 / n1 + 1 / n0))%Qc).
+
+Definition diff_ok (spec : option Qc) (tol : Q) (v : fval) : bool :=
+  match spec with
   | None => is_nan v
-  | Some d => match v with Fin m e => q_close_abs (dpa_tol p n l) (q_of_fin m e) d | _ => false end
+  | Some d => match v with Fin m e => q_close_abs tol (q_of_fin m e) d | _ => false end
   end.
+
+Definition dpa_tol (p : prec) (n : nat) (l : list dobs) : Q :=
+  diff_tol p (Z.of_nat n) (qabs_sum (map fst l)) (qlen (ones l)) (qlen (zeros l)).
+
+Definition dpa_entry_ok (p : prec) (n : nat) (l : list dobs) (v : fval) : bool := diff_ok (dpa_spec l) (dpa_tol p n l) v.
 
 Definition rows_ok (len : nat) (rows : list (list Z)) : bool := forallb (fun r => Nat.eqb (length r) len) rows.
 Definition bits_ok (rows : list (list Z)) : bool := forallb (forallb (fun z => Z.eqb z 0 || Z.eqb z 1)) rows.
@@ -247,4 +258,78 @@ Definition cpa_explain (c : cpa_case) : list expected :=
               (case_entries c (fun x y => combine x (map (Z.eqb 1) y)))
   | _ => map (fun l => ECorr (option_map (fun t : triple => let '(a, b, d) := t in (this a, this b, this d)) (pearson_fast l)))
               (case_entries c (fun x y => combine x (map (qcz (k_dden c)) y)))
+  end.
+
+(* ================================================================ LARGE TRACE COUNTS: run-length encoded rows *)
+(* A history of n = 65536 .. 2^24 traces is given as runs (row, count): the row repeated count times, runs in order.  The
+   spec of the expanded list is computed on the runs directly ([pearson_w], [dpa_spec_w]: weighted sums), which is the
+   spec itself by Proofs/Cpa.pearson_w_expand / dpa_spec_w_expand. *)
+Definition qpos (c : positive) : Qc := qz (Zpos c).
+Definition expand {A} (wl : list (A * positive)) : list A := flat_map (fun p => repeat (fst p) (Pos.to_nat (snd p))) wl.
+Definition wsum {A} (f : A -> Qc) (wl : list (A * positive)) : Qc := qsum (map (fun p => qpos (snd p) * f (fst p)) wl).
+Definition wlen {A} (wl : list (A * positive)) : Qc := wsum (fun _ => 1) wl.
+
+Definition pearson_w (wl : list (obs * positive)) : option triple :=
+  let n := wlen wl in
+  let mx := wsum fst wl / n in
+  let my := wsum snd wl / n in
+  let dx := wsum (fun o => sq (fst o - mx)) wl in
+  let dy := wsum (fun o => sq (snd o - my)) wl in
+  if qc0 dx || qc0 dy then None else Some (wsum (fun o => (fst o - mx) * (snd o - my)) wl, dx, dy).
+
+Definition wones (wl : list (dobs * positive)) := filter (fun p => snd (fst p)) wl.
+Definition wzeros (wl : list (dobs * positive)) := filter (fun p => negb (snd (fst p))) wl.
+Definition dpa_spec_w (wl : list (dobs * positive)) : option Qc :=
+  match wones wl, wzeros wl with
+  | [], _ => None
+  | _, [] => None
+  | o, z => Some (wsum fst o / wlen o - wsum fst z / wlen z)
+  end.
+
+Record rl_case := {
+  r_kind : ckind;
+  r_prec : prec;
+  r_W : nat;                                        (* number of words; one sample per trace; integer values *)
+  r_runs : list (Z * list Z * positive);            (* (sample value, word values, repetitions), in feeding order *)
+  r_obs_shape : list nat;
+  r_obs : list fval
+}.
+
+Definition pbits (p : prec) : Z := match p with F32 => 24 | F64 => 53 end.
+Definition rl_n (c : rl_case) : Z := fold_right (fun r a => (Zpos (snd r) + a)%Z) 0%Z (r_runs c).
+Definition rl_max (c : rl_case) : Z :=
+  fold_right (fun r a => Z.max (Z.abs (fst (fst r))) (fold_right (fun z b => Z.max (Z.abs z) b) a (snd (fst r)))) 1%Z (r_runs c).
+(* every running sum (of x, x^2, y, y^2, x y) is an integer below 2^p: exact in the float precision *)
+Definition rl_exact (c : rl_case) : bool := (rl_n c * rl_max c * rl_max c <? 2 ^ pbits (r_prec c))%Z.
+Definition rl_fac (c : rl_case) : Z := if rl_exact c then 4%Z else rl_n c.
+
+Definition rl_obs_w (c : rl_case) (w : nat) : list (obs * positive) :=
+  map (fun r => ((qz (fst (fst r)), qz (nth w (snd (fst r)) 0%Z)), snd r)) (r_runs c).
+Definition rl_dobs_w (c : rl_case) (w : nat) : list (dobs * positive) :=
+  map (fun r => ((qz (fst (fst r)), Z.eqb 1 (nth w (snd (fst r)) 0%Z)), snd r)) (r_runs c).
+
+Definition rl_entry_ok (c : rl_case) (w : nat) (v : fval) : bool :=
+  match r_kind c with
+  | KDpa =>
+      let wl := rl_dobs_w c w in
+      diff_ok (dpa_spec_w wl)
+              (diff_tol (r_prec c) (rl_fac c) (wsum (fun o : dobs => if Qle_bool 0%Q (fst o) then fst o else - fst o) wl)
+                        (wlen (wones wl)) (wlen (wzeros wl))) v
+  | _ =>
+      let wl := rl_obs_w c w in
+      corr_ok (r_prec c) (rl_fac c) (pearson_w wl) (wsum (fun o => sq (fst o)) wl) (wsum (fun o => sq (snd o)) wl) v
+  end.
+
+Definition rl_check (c : rl_case) : bool :=
+  forallb (fun r => Nat.eqb (length (snd (fst r))) (r_W c)) (r_runs c)
+  && Nat.ltb 0 (r_W c)
+  && match r_kind c with KDpa => forallb (fun r => forallb (fun z => Z.eqb z 0 || Z.eqb z 1) (snd (fst r))) (r_runs c) | _ => true end
+  && natlist_eqb (r_obs_shape c) [r_W c; 1%nat]
+  && forallb2 (rl_entry_ok c) (seq 0 (r_W c)) (r_obs c).
+
+Definition rl_explain (c : rl_case) : list expected :=
+  match r_kind c with
+  | KDpa => map (fun w => EDiff (option_map this (dpa_spec_w (rl_dobs_w c w)))) (seq 0 (r_W c))
+  | _ => map (fun w => ECorr (option_map (fun t : triple => let '(a, b, d) := t in (this a, this b, this d)) (pearson_w (rl_obs_w c w))))
+             (seq 0 (r_W c))
   end.
